@@ -397,9 +397,9 @@ func init() {
 			return media.Gen(seed, idx, o), muxrun.Options{Light: true, RoundEvery: 4}
 		},
 		pre:         heapProbe,
-		rule:        "seven histories of 400 (thorough: 3000) rotations run alone in the process with the live heap measured after forced collections; 24 (thorough: 240) triples of never-rotating single-track histories with SegmentMaxSize one byte below, exactly at, and one sample minus one byte above k samples; four AV1 histories in which 8 (thorough: 60) rotations fail on a refused sequence header, compared with the same history without failures; then (every second case also observed from inside each segment rotation) two thirds long histories (20-80 rotations quick, 100-400 thorough), one third small SegmentMaxSize with payloads straddling the limit; non-trivial = >= 3 published segments",
+		rule:        "seven histories of 400 (thorough: 3000) rotations run alone in the process with the live heap measured after forced collections; 24 (thorough: 240) triples of never-rotating single-track histories with SegmentMaxSize one byte below, exactly at, and one sample minus one byte above k samples; four AV1 histories in which 8 (thorough: 60) rotations fail on a refused sequence header, compared with the same history without failures; one MPEG-TS Directory history with episodes of disk write faults (file size limit of 8 KB); then (every second case also observed from inside each segment rotation) two thirds long histories (20-80 rotations quick, 100-400 thorough), one third small SegmentMaxSize with payloads straddling the limit; non-trivial = >= 3 published segments",
 		assumptions: stdAssumptions(),
-		floors:      map[string]int{"C18.path_counts_checked": 2000, "C18.dir_listings_checked": 500, "C18.expired_probed": 500, "C18.size_limit_hit": 10, "C18.segments_near_limit": 5, "C18.heap_histories": 7, "C18.limit_boundaries_checked": 20, "C18.failed_rotation_histories": 4},
+		floors:      map[string]int{"C18.path_counts_checked": 2000, "C18.dir_listings_checked": 500, "C18.expired_probed": 500, "C18.size_limit_hit": 10, "C18.segments_near_limit": 5, "C18.heap_histories": 7, "C18.limit_boundaries_checked": 20, "C18.failed_rotation_histories": 4, "C18.write_fault_histories": 1},
 	})
 	regMux(&muxProp{
 		id: "C19", oracle: oracle.C19, quick: 400, thorough: 12000,
